@@ -19,6 +19,6 @@ CONSTANTS
   InitUnder <- InitK12
   Broken = "misroute"
 VIEW DViewNoHist
-INVARIANTS DTypeOK D1_Order D3_View D4_Adder
-PROPERTIES P_D1 P_D2 P_D3 P_D4 P_D5 P_Shim 
+INVARIANTS D1_Order
+PROPERTIES P_D1
 CHECK_DEADLOCK FALSE
